@@ -44,4 +44,16 @@ void drive()
   m.h(1);
 }
 
+
+// the C++11 level has its own exchange (cpp11_shenanigans.hpp): installing reporters and tracers goes through it
+void install(std::ostream& os)
+{
+  auto prev = trompeloeil::set_reporter([](trompeloeil::severity, char const*, unsigned long, std::string const&) {});
+  auto both = trompeloeil::set_reporter([](trompeloeil::severity, char const*, unsigned long, std::string const&) {},
+                                        [](char const*) {});
+  trompeloeil::stream_tracer tracer(os);
+  (void)prev;
+  (void)both;
+}
+
 }
